@@ -603,6 +603,88 @@ def run_sequences(unit, ctx):
             "counters": {"sequence_type_cases": ev}}
 
 
+# ---- whole documents of every JSON type, through every route that leads to resolve_fragment ---------------
+ROUTE_URL = "http://h.invalid/c14/doc.json"
+ROUTE_DOCS = [None, False, True, 0, 1.5, "", "s", [], {}, [None], {"a": None}, {"": 0}, [[], {}], 0.0, -1]
+
+
+def route_cases(doc):
+    """(fragment, expected value) for the document itself and its direct children."""
+    out = [("", doc)]
+    if isinstance(doc, list):
+        out += [("/%d" % i, v) for i, v in enumerate(doc)]
+    elif isinstance(doc, dict):
+        out += [("/" + pointer.escape_token(k), v) for k, v in doc.items()]
+    return out
+
+
+def route_observations(doc, frag):
+    """{route name: ("value", v) | ("error", None) | ("exc", name)} plus handler call counts."""
+    import copy as _copy
+    obs = {}
+
+    def run(name, fn):
+        try:
+            obs[name] = ("value", fn())
+        except RefResolutionError:
+            obs[name] = ("error", None)
+        except Exception as e:
+            obs[name] = ("exc", type(e).__name__)
+    ref = ROUTE_URL + "#" + frag
+    r1 = RefResolver("", {}, store={ROUTE_URL: doc})
+    run("store/resolve", lambda: r1.resolve(ref)[1])
+    run("store/resolve-again", lambda: r1.resolve(ref)[1])
+    run("store/resolve_from_url", lambda: r1.resolve_from_url(ref))
+
+    def via_resolving(r, rf):
+        with r.resolving(rf) as v:
+            return v
+    run("store/resolving", lambda: via_resolving(r1, ref))
+    if not frag:
+        run("store/no-fragment", lambda: r1.resolve(ROUTE_URL)[1])
+    r2 = RefResolver(ROUTE_URL, doc)
+    run("referrer/fragment-only", lambda: r2.resolve("#" + frag)[1])
+    run("referrer/absolute", lambda: r2.resolve(ref)[1])
+    calls = []
+
+    def handler(uri):
+        calls.append(uri)
+        return _copy.deepcopy(doc)
+    r3 = RefResolver("", {}, handlers={"http": handler})
+    run("handler/resolve", lambda: r3.resolve(ref)[1])
+    run("handler/resolve-again", lambda: r3.resolve(ref)[1])
+    run("handler/resolve_from_url", lambda: r3.resolve_from_url(ref))
+    return obs, len(calls)
+
+
+def run_routes(unit, ctx):
+    _, shard, nsh = unit
+    ev = 0
+    outcomes, viol = {}, []
+    for i in range(shard, len(ROUTE_DOCS), nsh):
+        doc = ROUTE_DOCS[i]
+        for frag, want in route_cases(doc):
+            obs, ncalls = route_observations(doc, frag)
+            for name, o in sorted(obs.items()):
+                ev += 1
+                ok = o[0] == "value" and type(o[1]) is type(want) and o[1] == want
+                key = "route:%s:%s" % (name.split("/")[0], "exact-value" if ok else o[0])
+                outcomes[key] = outcomes.get(key, 0) + 1
+                if not ok:
+                    kind = "wrong-value" if o[0] == "value" else ("unresolved" if o[0] == "error" else "crash-" + o[1])
+                    viol.append({"signature": "C14|%s|route=%s|document-type=%s%s" % (
+                        kind, name, type(doc).__name__, "" if frag else "|whole-document"), "size": len(repr(doc)),
+                                 "case": {"half": "route", "doc_index": i, "fragment": frag, "route": name},
+                                 "detail": {"observed": list(o), "expected": want}})
+            if ncalls > 1:
+                viol.append({"signature": "C14|route=handler|document-retrieved-%d-times|document-type=%s" % (
+                    ncalls, type(doc).__name__), "size": len(repr(doc)),
+                             "case": {"half": "route", "doc_index": i, "fragment": frag, "route": "handler-count"},
+                             "detail": {"handler_calls": ncalls}})
+    return {"evaluations": ev, "nontrivial": ev, "violations": viol, "samples": [], "outcomes": outcomes,
+            "counters": {"route_cases": ev}}
+
+
 def plan(ctx):
     seqs = get_seqs(ctx.tier)
     n = 96 if ctx.tier == "quick" else 192
@@ -614,8 +696,10 @@ def plan(ctx):
             if sp != "raw" or "%" not in pointer.escape_token(t):
                 enc(sp, t)
     return {
-        "units": [(i, n) for i in range(n)] + [("sequences", i, 4) for i in range(4)],
-        "rule": ("ARRAY TYPES: arrays given as list / tuple / UserList / deque of length 1, 2, 3, 12 at the root, as a "
+        "units": [(i, n) for i in range(n)] + [("sequences", i, 4) for i in range(4)] + [("routes", i, 3) for i in range(3)],
+        "rule": ("ROUTES: whole documents of every JSON type (null, false, true, 0, 1.5, '', [], {} ... 15 of them) and "
+                 "their direct children through resolve / resolve_from_url / resolving with the document in the "
+                 "store, as the referrer, and served by a handler (retrieved once).  ARRAY TYPES: arrays given as list / tuple / UserList / deque of length 1, 2, 3, 12 at the root, as a "
                  "member and nested: every index (two spellings, identity of the value) and every non-index / "
                  "past-the-end token.  documents = shape sequences (s1..sk), k <= %d: the root has shape s1, each of its children shape s2, "
                  "..., the children of the last shape are marker objects {\"enum\": [unique n]}; shapes = objects with "
@@ -653,6 +737,8 @@ def plan(ctx):
 def run_unit(unit, ctx):
     if unit[0] == "sequences":
         return run_sequences(unit, ctx)
+    if unit[0] == "routes":
+        return run_routes(unit, ctx)
     shard, nshards = unit
     seqs = get_seqs(ctx.tier)
     keys = tier_keys(ctx.tier)
@@ -823,6 +909,15 @@ def run_unit(unit, ctx):
 
 
 def replay(case, ctx):
+    if case.get("half") == "route":
+        doc = ROUTE_DOCS[case["doc_index"]]
+        obs, ncalls = route_observations(doc, case["fragment"])
+        if case["route"] == "handler-count":
+            return {"reproduced": ncalls > 1, "handler_calls": ncalls}
+        want = dict(route_cases(doc))[case["fragment"]]
+        o = obs[case["route"]]
+        ok = o[0] == "value" and type(o[1]) is type(want) and o[1] == want
+        return {"reproduced": not ok, "observed": list(o)}
     if case.get("half") == "sequence":
         for label, doc, pos, neg in seq_documents():
             if label == case["label"]:
